@@ -274,26 +274,28 @@ def visitAll (p : P) : List Ev → P × Option Err
     | (p, some err) => (p, some err)
     | (p, none) => visitAll p es
 
+/-- stepBytes after the array start was reported -/
+def stepBytesGo (p : P) (b : Bytes) : R :=
+  let L := p.length.current.toNat
+  let done := b.length ≥ L
+  let L := if done then L else b.length
+  let p := if done then p else decLen p L
+  match visitAll p ((b.take L).map fun c => Ev.num .byte c.toNat) with
+  | (p, some e) => { p := p, rest := [], err := some e }
+  | (p, none) =>
+    let rest := b.drop L
+    if done then
+      match visit p .arrEnd with
+      | (p, some e) => { p := popLen p, rest := rest, done := true, err := some e }
+      | (p, none) => popStateR (popLen p) rest
+    else { p := p, rest := rest }
+
 def stepBytes (p : P) (b : Bytes) : R :=
-  let go (p : P) : R :=
-    let L := p.length.current.toNat
-    let done := b.length ≥ L
-    let L := if done then L else b.length
-    let p := if done then p else decLen p L
-    match visitAll p ((b.take L).map fun c => Ev.num .byte c.toNat) with
-    | (p, some e) => { p := p, rest := [], err := some e }
-    | (p, none) =>
-      let rest := b.drop L
-      if done then
-        match visit p .arrEnd with
-        | (p, some e) => { p := popLen p, rest := rest, done := true, err := some e }
-        | (p, none) => popStateR (popLen p) rest
-      else { p := p, rest := rest }
   if p.state.current.minor == stStart then
     match visit p (.arrStart p.length.current BT.byte) with
     | (p, some e) => { p := p, rest := [], err := some e }
-    | (p, none) => go (setMinor p stCont)
-  else go p
+    | (p, none) => stepBytesGo (setMinor p stCont) b
+  else stepBytesGo p b
 
 def stepText (p : P) (b : Bytes) : R :=
   let (p, rest, tmp) := collectP p b p.length.current.toNat
